@@ -73,6 +73,18 @@ def generate(tier, rng):
                 ops = [dict(op="new", dims=[[m, False] for m in x]), dict(op="append", i=0, d=[l, "tw"], inplace=ip),
                        dict(op="insert", i=0 if ip else 1, pos=1, d=["e", False], inplace=True), dict(op="replace", i=0 if ip else 1, key=["L", "gh"["ab".index(l)]], d=["f", False], inplace=ip)]
                 cases.append(dict(stream="clash", ops=ops, twins=True))
+    # the right operand of an operator given as a bare Dimension (contained in the left set or new to it), the result then edited in
+    # place; and subsets requested through a one-shot iterator (model not consulted: the pool has no set for the bare operand)
+    for x in (["a", "b"], ["b", "c", "a"], ["c"]):
+        for l in "abce":
+            for o_ in ("union", "inter", "diff", "add"):      # (s ^ Dimension raises TypeError in flodym: Dimension has no '-'; the property speaks of sets)
+                ops = [dict(op="new", dims=[[m, False] for m in x]), dict(op=o_, i=0, od=[l, False]),
+                       dict(op="append", i=1, d=["f", False], inplace=True), dict(op="drop", i=1, key=["L", "f"], inplace=True)]
+                cases.append(dict(stream="bare", coq=False, ops=ops))
+        for ks in (["b", "a"], ["a"], list(reversed(x))):
+            for style in ("iter", "gen", "list"):
+                ops = [dict(op="new", dims=[[m, False] for m in x]), dict(op="subset", i=0, keys=[["L" if i_ % 2 else "N", m] for i_, m in enumerate(ks)], style=style)]
+                cases.append(dict(stream="bare", coq=False, ops=ops))
     n, maxlen = (400, 8) if tier == "quick" else (4000, 12)
     letters = list("abcdef")
     for h in range(n):
@@ -147,18 +159,22 @@ def run_impl(case):
             else:
                 a = pool[o["i"]]
                 recv = o["i"]
+                other = fl_dim(D(*o["od"])) if "od" in o else (pool[o["j"]] if "j" in o else None)
                 if k == "union":
-                    r = a | pool[o["j"]]
+                    r = a | other
                 elif k == "inter":
-                    r = a & pool[o["j"]]
+                    r = a & other
                 elif k == "diff":
-                    r = a - pool[o["j"]]
+                    r = a - other
                 elif k == "xor":
-                    r = a ^ pool[o["j"]]
+                    r = a ^ other
                 elif k == "add":
-                    r = a + pool[o["j"]]
+                    r = a + other
                 elif k == "subset":
-                    r = a.get_subset() if o["keys"] is None else a.get_subset(tuple(_key(x) for x in o["keys"]))
+                    ks_ = None if o["keys"] is None else tuple(_key(x) for x in o["keys"])
+                    st_ = o.get("style")
+                    arg = ks_ if st_ in (None, "tuple") or ks_ is None else (list(ks_) if st_ == "list" else (iter(ks_) if st_ == "iter" else (q for q in ks_)))
+                    r = a.get_subset() if ks_ is None else a.get_subset(arg)
                 elif k == "copy":
                     r = a.copy()
                 elif k == "arrayof":
@@ -222,7 +238,7 @@ def _expected(o, sets):
         return "err" if len(set(_lets(ds))) != len(ds) else ds
     x = sets[o["i"]]
     if k in ("union", "inter", "diff", "xor", "add"):
-        y = sets[o["j"]]
+        y = [D(*o["od"])] if "od" in o else sets[o["j"]]
         lx, ly = _lets(x), _lets(y)
         if k == "union":
             return x + [d for d in y if d["letter"] not in lx]
